@@ -4,6 +4,7 @@ Property theorems only (helper lemmas live in TdModel/Lemmas/C39.lean).
 -/
 import TdModel.Lemmas.C39
 import TdModel.Lemmas.C39D
+import TdModel.Lemmas.C39O
 
 namespace TdModel.C39
 open TdModel
@@ -66,6 +67,36 @@ theorem iterate_dialogs_exact (ds : List Dlg) (hdesc : ds.Pairwise (fun a b => b
     (by rw [hpend]; exact hfuel)
   rw [hpend] at this
   exact this
+
+/-- The four offset-based iterators built on a copy of the same skeleton (blocked contacts, user photos,
+channel participants, featured sticker sets), with the lastBatch rules read from their sources: for every
+item list, page size ≥ 1 and constructor choice per request — and, for the participants iterator whose
+rule is "an empty page ends", every server-side page cap ≥ 1 — the iteration yields exactly the items in
+order and stops.  (For the three "shorter than requested ends" iterators the server must honour the
+requested page size, as for messages.) -/
+theorem iterate_offset_exact (items : List Nat) (limit : Nat) (hlimit : 1 ≤ limit) (ks : List Kind)
+    (cap : Nat) (hcap : limit ≤ cap) (pcap : Nat) (hpcap : 1 ≤ pcap) (fuel : Nat) (hfuel : items.length < fuel) :
+    (∀ cf cs, (cf, cs) ∈ [(Facts.C39.blockedFull, Facts.C39.blockedSlice), (Facts.C39.photosFull, Facts.C39.photosSlice),
+        (0, Facts.C39.featuredRule)] →
+      (orunS (offServer items ks cf cs cap) fuel 0 (OIter.init limit)).yields = items ∧
+      (orunS (offServer items ks cf cs cap) fuel 0 (OIter.init limit)).done = true) ∧
+    ((orunS (offServer items ks 0 Facts.C39.participantsRule pcap) fuel 0 (OIter.init limit)).yields = items ∧
+     (orunS (offServer items ks 0 Facts.C39.participantsRule pcap) fuel 0 (OIter.init limit)).done = true) ∧
+    Facts.C39.offsetItersAsModelled = true := by
+  have hpend : opending items (OIter.init limit) = items := by simp [opending, OIter.init]
+  have key : ∀ cf cs c, RuleOK cf cs c limit →
+      (orunS (offServer items ks cf cs c) fuel 0 (OIter.init limit)).yields = items ∧
+      (orunS (offServer items ks cf cs c) fuel 0 (OIter.init limit)).done = true := by
+    intro cf cs c hr
+    have := orunS_exact items ks cf cs c fuel 0 (OIter.init limit) (by simpa [OIter.init] using hr)
+      (by simp only [OIter.init]; omega) (by rw [hpend]; exact hfuel)
+    rw [hpend] at this
+    exact this
+  refine ⟨?_, key 0 _ pcap ⟨rfl, Or.inr ⟨rfl, hpcap⟩⟩, rfl⟩
+  intro cf cs hm
+  simp only [List.mem_cons, Prod.mk.injEq, List.mem_nil_iff, or_false] at hm
+  rcases hm with ⟨h1, h2⟩ | ⟨h1, h2⟩ | ⟨h1, h2⟩ <;> subst h1 <;> subst h2 <;>
+    exact key _ _ cap ⟨rfl, Or.inl ⟨rfl, hcap⟩⟩
 
 /-- Non-vacuity (dialogs): three dialogs, two of them with the same date, page size 2. -/
 example : (drun [⟨9, 5, 2⟩, ⟨9, 5, 1⟩, ⟨3, 8, 7⟩] 4 [.slice, .full] 1 (DIter.init 2)).yields =
